@@ -18,7 +18,8 @@ RULE = ("altitudes -500..20000 m (uniform, plus 0, 11000 +- {0,1e-6,1}, 20000, -
         "CAS=EAS=TAS at sea level, TAS>=EAS and CAS>=EAS for h>=0, distance symmetric and within 0.5 m + 1e-9 d of haversine, bearing in [0,360); "
         "array results equal element-wise scalar results. non-trivial = altitude within 1 m of 0/11000/20000 or above the tropopause, speed > 250 m/s or < 5 m/s, "
         "antipodal/polar/antimeridian coordinate pairs"
-        ' Also: whole-number arguments as Python ints, int16/int32/int64/uint16 arrays, an altitude array updated in place between two calls, a scalar speed with an altitude array and a speed array with a scalar altitude, single-precision (numpy.float32) calls at the same altitudes made earlier in the process, altitudes on the 25 m grid, broadcast shapes (column x row, one-element arrays), 2-D altitude arrays in C / Fortran order and as transposed or strided views, coordinate arrays of float / signed / unsigned integer dtypes in both longitude conventions (leg geo_arrays).')
+        ' Also: whole-number arguments as Python ints, int16/int32/int64/uint16 arrays, an altitude array updated in place between two calls, a scalar speed with an altitude array and a speed array with a scalar altitude, single-precision (numpy.float32) calls at the same altitudes made earlier in the process, altitudes on the 25 m grid, broadcast shapes (column x row, one-element arrays), 2-D altitude arrays in C / Fortran order and as transposed or strided views, coordinate arrays of float / signed / unsigned integer dtypes in both longitude conventions (leg geo_arrays).'
+        ' Also unsigned altitude arrays, float32 speeds, array results kept across later calls.')
 ASSUMPTIONS = ["numpy evaluates trigonometric functions of float32 and of 16-bit integer arrays in single precision; distance/bearing on such arrays are judged at that precision (5 km / 1e-3 deg), on 32/64-bit integer and float64 arrays at 0.5 m / 1e-9 deg",
                "ISA reference ref/isa.py (g0/(R L) = 5.25588) checked at import against tabulated ICAO values",
                "compressible round trips judged at 1e-6 relative: the impact-pressure formula cancels at low speed (measured worst 7e-9)"]
